@@ -1,4 +1,4 @@
-from sqlparse.sql import Function, Token
+from sqlparse.sql import Function, IdentifierList, Token
 
 from sqllineage.core.holders import SubQueryLineageHolder
 from sqllineage.core.parser.sqlparse.handlers.base import CurrentTokenBaseHandler
@@ -16,12 +16,17 @@ class SwapPartitionHandler(CurrentTokenBaseHandler):
             isinstance(token, Function)
             and token.get_name().lower() == "swap_partitions_between_tables"
         ):
-            _, parenthesis = token.tokens
-            _, identifier_list, _ = parenthesis.tokens
-            identifiers = list(identifier_list.get_identifiers())
-            holder.add_read(
-                SqlParseTable(escape_identifier_name(identifiers[0].normalized))
-            )
-            holder.add_write(
-                SqlParseTable(escape_identifier_name(identifiers[3].normalized))
-            )
+            identifiers = [
+                identifier
+                for identifier_list in token.tokens[-1].get_sublists()
+                if isinstance(identifier_list, IdentifierList)
+                for identifier in identifier_list.get_identifiers()
+            ]
+            if len(identifiers) > 3:
+                # staging_table, min_range_value, max_range_value, target_table
+                holder.add_read(
+                    SqlParseTable(escape_identifier_name(identifiers[0].normalized))
+                )
+                holder.add_write(
+                    SqlParseTable(escape_identifier_name(identifiers[3].normalized))
+                )
